@@ -303,8 +303,10 @@ def run(ctx):
 def replay(ctx, rp):
     load_sysid()
     states = rp["replay"]["states"]
+    res = tlc.run(SPEC, os.path.join(TLA, "SignalOps_MC.cfg"), timeout=600)      # the oracle still satisfies its laws
+    ctx.tlc_ok(res, "SignalOps_MC")
     problems = Replayer().run(states)
-    ctx.case({"replay": rp["signature"]})
+    ctx.case({"replay": rp["signature"]}, sample={"ops": [s["ev"]["op"] for s in states]})
     ctx.case({"replay": rp["signature"], "x": 1})
     for (si, sig, text) in problems:
         print("step %d: %s: %s" % (si, sig, text[:300]))
